@@ -296,6 +296,19 @@ class Model:
                 self.children(n, state)
             else:
                 self.emit_value(v, mode or "text")
+        elif n.get("translate"):
+            # The content is rendered into a message of its own (named
+            # children are cut out and put back by the translation); with
+            # the identity translation the message is emitted as it is.
+            saved = self.out
+            self.out = []
+            try:
+                self.children(n, state)
+                msg = "".join(self.out)
+            finally:
+                self.out = saved
+            if msg.strip():
+                self.out.append(msg)
         else:
             self.children(n, state)
         if show_tag:
